@@ -24,6 +24,8 @@ import (
 var c18AddrPool = []string{
 	"10.0.0.5", "192.168.1.7", "203.0.113.40", "127.0.0.1", "127.0.0.2",
 	"2001:db8::5", "2001:db8:1::6", "fd00::7", "fe80::8", "fec0::9", "::10.0.0.9", "::ffff:10.0.0.10", "::1",
+	// the far ends of the special-purpose ranges: site-local is fec0::/10, link-local fe80::/10
+	"fed0::10", "feff::aa", "febf::1", "::192.0.2.1", "fc00::3",
 }
 
 type c18Config struct {
